@@ -9,8 +9,14 @@ echo "== tracked changes:"; git status --short | grep -v '^??'
 echo "== demo WITH change (expect FAIL)"
 go test -vet=off -count=1 -run "$PAT" "$PKG" 2>&1 | grep -E '^(--- FAIL|FAIL|ok|PASS|panic)' | head -5
 git stash -q
+# new source files of the change are untracked and survive the stash: move them away too (everything untracked that is
+# not a test file and not under seed/)
+mkdir -p /tmp/seedtmp/new.$$
+NEWSRC=$(git status --short | grep '^??' | awk '{print $2}' | grep -v '^seed/' | grep -v '_test.go$' | grep '\.go$')
+for f in $NEWSRC; do mkdir -p /tmp/seedtmp/new.$$/$(dirname $f); mv "$f" /tmp/seedtmp/new.$$/$f; done
 echo "== demo WITHOUT change (expect ok)"
 go test -vet=off -count=1 -run "$PAT" "$PKG" 2>&1 | grep -E '^(--- FAIL|FAIL|ok|PASS|panic)' | head -5
+for f in $NEWSRC; do mv /tmp/seedtmp/new.$$/$f "$f"; done
 git stash pop -q
 if [ -z "$SKIP" ]; then
   echo "== full suite WITH change, excluding the demo (expect only TestRules)"
